@@ -1,5 +1,5 @@
 // target: src/net/codec.rs
-// labels: codec.encode.appends-frame-to-buffer
+// labels: codec.encode.appends-frame-to-buffer codec.encode.buffered-bytes-never-touched
 // Encoder convention of tokio_util (FramedWrite::start_send hands the *shared, possibly non-empty* write buffer to
 // `encode`): a frame is appended behind what is already buffered. SyncCodec::encode appends the length prefix but
 // writes the payload at offset 4 of the buffer start, so a second frame encoded before a flush corrupts both.
